@@ -291,7 +291,7 @@ func TestC14Histories(t *testing.T) {
 	st := harn.NewStats(env, "histories")
 	defer st.Flush()
 	rapid.Check(t, func(rt *rapid.T) {
-		g := gen.NewG(rt, gen.Cfg{MaxDepth: 2, MaxOps: 3, JoinDepth: 1, Lets: true, Compilable: true})
+		g := gen.NewG(rt, gen.Cfg{MaxDepth: 2, MaxOps: 3, JoinDepth: 1, Lets: true, Compilable: true, Hostile: true})
 		h := &history{Shared: rapid.SampledFrom(sharedParamPool).Draw(rt, "shared"), Goroutines: rapid.IntRange(2, 16).Draw(rt, "goroutines")}
 		var names []string
 		for n := range h.Shared {
@@ -301,7 +301,12 @@ func TestC14Histories(t *testing.T) {
 		// a pool of sources: lets that shadow shared parameters, built-ins, errors
 		var pool []string
 		for i, n := 0, rapid.IntRange(2, 6).Draw(rt, "npool"); i < n; i++ {
-			switch rapid.IntRange(0, 6).Draw(rt, "srckind") {
+			switch rapid.IntRange(0, 8).Draw(rt, "srckind") {
+			case 7, 8:
+				// string literals with backslash escapes, a different one per source
+				word := rapid.StringMatching(`[a-z]{3,12}`).Draw(rt, "word")
+				pool = append(pool, fmt.Sprintf(`T | where p == "C:\%s\%s	"%s"" and q != '%s's' | project p, s = strcat("\", p, '
+%s')`, word, word, word, word, word))
 			case 0:
 				p := rapid.SampledFrom(names).Draw(rt, "shadowed")
 				pool = append(pool, fmt.Sprintf("let %s = %d; T | where a == %s and b < p1 | take lim", p, rapid.IntRange(0, 9).Draw(rt, "v"), p))
@@ -315,7 +320,7 @@ func TestC14Histories(t *testing.T) {
 				// histories travel as JSON: keep sources valid UTF-8
 				pool = append(pool, strings.ToValidUTF8(g.MutateBytes(gen.Source(g.Program())), "?"))
 			default:
-				pool = append(pool, gen.Source(g.Program()))
+				pool = append(pool, strings.ToValidUTF8(gen.Source(g.Program()), "?"))
 			}
 		}
 		shadow, shadowThenUse := false, false
